@@ -128,7 +128,8 @@ def read_tree(base, skip=()):
 def world_tree(sb):
     """relpath (relative to the sandbox root) -> bytes of every regular file of the user's world:
     HOME and the project dir (not AGENTPACK_HOME, not the project's .git)"""
-    t = read_tree(sb.root, skip=(sb.aphome, os.path.join(sb.project, '.git'), sb.canary))
+    gits = tuple(os.path.join(sb.root, d, '.git') for d in os.listdir(sb.root) if d.startswith('project'))
+    t = read_tree(sb.root, skip=(sb.aphome, sb.canary) + gits)
     t.pop('/gitconfig', None)
     return t
 
@@ -500,6 +501,21 @@ class CfgWorld:
         self.modules.append({'id': 'prompt:n%d' % k, 'type': 'prompt', 'dir': 'modules/prompts/n%d' % k,
                              'files': {'n%d.md' % k: b'new prompt %d\n' % k}, 'targets': [], 'enabled': True})
         return 'add_prompt'
+    def move_home(self):
+        """options.codex_home now points somewhere else (the old directory keeps its files and manifests)"""
+        k = 2
+        while os.path.exists(os.path.join(self.sb.home, 'codex_home%d' % k)): k += 1
+        self.codex_home = os.path.join(self.sb.home, 'codex_home%d' % k)
+        os.makedirs(self.codex_home)
+        return 'move_home'
+    def switch_project(self):
+        """the same agentpack home and config repo are now used from another project checkout"""
+        k = 2
+        while os.path.exists(os.path.join(self.sb.root, 'project%d' % k)): k += 1
+        self.sb.project = os.path.join(self.sb.root, 'project%d' % k)
+        os.makedirs(self.sb.project); self.sb.git_init_project()
+        self.project = self.sb.project
+        return 'switch_project'
     def edit_config(self):
         rng = self.rng
         k = rng.random()
@@ -645,7 +661,9 @@ def oracle_step(props, before, after, D, roots, flt, adopt, entry, plan, code, i
     bad = []
     recorded_all = accepted_entries(before, roots, ids)
     if not recorded_all and latest_managed is not None:
-        recorded_all = set(latest_managed)
+        # the latest snapshot only counts as a record "for that root and target": entries under a
+        # current root of their target (the agentpack home, hence its snapshots, is shared by all projects)
+        recorded_all = {(t, p) for t, p in latest_managed if any(r['target'] == t and p.startswith(r['root'] + '/') for r in roots)}
     recorded = {(t, p) for t, p in recorded_all if flt is None or t == flt}
     dkeys = {(d['target'], d['path']): d for d in D}
     mpaths = {r['root'] + '/' + mf_name(r['target']) for r in roots}
@@ -669,6 +687,8 @@ def oracle_step(props, before, after, D, roots, flt, adopt, entry, plan, code, i
             bad.append(('C02', 'a desired file was deleted: %s' % p))
         if p not in planned:
             bad.append(('C04', 'changed path not in the announced plan: %s' % p))
+        if not any(p.startswith(r['root'] + '/') for r in roots):
+            bad.append(('C03', 'a file outside every target root of this run was created, modified or deleted: %s' % p))
         if is_manifest_name(os.path.basename(p)) and p not in mpaths:
             bad.append(('C04', 'a manifest not belonging to a selected root changed: %s' % p))
         if flt is not None:
@@ -751,6 +771,39 @@ def latest_managed_of(sb, base):
     if v.get('managed_files'):
         return [(f['target'], f['path'][len(base):]) for f in v['managed_files']]
     return [(c['target'], c['path'][len(base):]) for c in v['changes'] if c['op'] in ('create', 'update') and not is_manifest_name(os.path.basename(c['path']))]
+
+def setup_moved_roots(cw, rng):
+    """configurations in which a relocation leaves NO usable manifest in the new roots (so that the
+    snapshot fallback decides), plus ordinary ones"""
+    k = rng.random()
+    if k < 0.4:      # only project-scoped outputs: another checkout has no manifest at all
+        cw.opts = {'write_agents_global': False, 'write_user_prompts': False, 'write_user_skills': False}
+        cw.repo_agents = True; cw.claude = False; cw.zed = rng.random() < 0.5
+        if not any(m['type'] == 'instructions' for m in cw.modules):
+            cw.modules.append({'id': 'instructions:base', 'type': 'instructions', 'dir': 'modules/instructions/base',
+                               'files': {'AGENTS.md': b'# rules\n'}, 'targets': [], 'enabled': True})
+        for m in cw.modules:
+            if m['type'] == 'instructions': m['targets'] = []; m['enabled'] = True
+    elif k < 0.8:    # only codex user scope: a moved codex_home has no manifest at all
+        cw.claude = False; cw.zed = False; cw.repo_agents = False
+        if not cw.desired(None):
+            cw.add_prompt()
+
+def script_moved_roots(st, cw, sb, rng):
+    """deploy; relocate (other project / other codex_home / a root switched off); deploy again; ..."""
+    if st >= 4: return None
+    tags = []
+    if st > 0:
+        k = rng.random()
+        if k < 0.4: tags.append('cfg:' + cw.switch_project())
+        elif k < 0.75: tags.append('cfg:' + cw.move_home())
+        else:
+            o = rng.choice(sorted(cw.opts)); cw.opts[o] = not cw.opts[o]; tags.append('cfg:toggle_option')
+        if rng.random() < 0.4:
+            tags.append('cfg:' + cw.edit_config())
+        cw.write()
+    flt = None if rng.random() < 0.75 else 'codex'
+    return tags, rng.choice(['cli_json', 'cli_json', 'cli_human_yes', 'mcp', 'tui']), rng.random() < 0.5, flt
 
 def run_cli_stream(ctx, nhist, depth, props, stream='cli_deploy', idempotence=False, script=None, setup=None):
     rng = ctx.rng
